@@ -160,6 +160,7 @@ type Node struct {
 }
 
 type World struct {
+	byzProposed map[[2]int64]int // policy: how many proposals the Byzantine proposer of (height, round) has made
 	sideOf map[string]int // split attack: item id / part-set hash -> the side a Byzantine artefact is meant for
 
 	T   *testing.T
